@@ -16,6 +16,23 @@ from .ctflow import norm_name
 FAMILY = ("set_cond", "select", "cswap", "set_condneg", "set_condzeta")
 
 
+def ctl_index(facts, fn):
+    """Parameter index of the control word: the parameter named `ctl`, else -- for the conditional-copy family, whose
+    signature is (operands.., control word) -- the unique by-value u32 parameter whatever it is called."""
+    named = [i for i in range(1, fn["argc"] + 1) if fn["locals"][i][1] == "ctl"]
+    if named:
+        return named[0]
+    if fn["item"] in FAMILY:
+        cand = []
+        for i in range(1, fn["argc"] + 1):
+            td = facts.ty(fn["locals"][i][0])
+            if td.get("k") == "uint" and td.get("bits") == 32:
+                cand.append(i)
+        if len(cand) == 1:
+            return cand[0]
+    return None
+
+
 class TT:
     """Boolean expressions over named atoms; equality is decided by exhaustive evaluation (<= 8 atoms)."""
     FULL = ("one",)
@@ -120,10 +137,7 @@ class PrimEval:
         self.loaded = {}
         self.stored_before_load = False
         self.why = None
-        self.ctl = None
-        for i in range(1, fn["argc"] + 1):
-            if fn["locals"][i][1] == "ctl":
-                self.ctl = i
+        self.ctl = ctl_index(facts, fn)
         self.sel_locals = {}
         if self.ctl is not None:
             self._selectors()
@@ -316,6 +330,46 @@ def loop_range_ok(body, fn, facts, n):
                 a, c = ev.op_ival(s[2][2][0]), ev.op_ival(s[2][2][1])
                 if a == (0, 0) and c == (n, n):
                     return True
+    # `let mut i = 0; while i < n { ..; i += 1 }`: a counter loop proven by the loop-progress classification whose
+    # counter starts at 0, is stepped by exactly 1 and is compared `< n`
+    from .loopprog import classify
+    for h, blocks in body.loops().items():
+        kind, _d = classify(facts, fn, body, h, blocks, ev)
+        if kind != "counter":
+            continue
+        for bi in blocks:
+            t = body.blocks[bi]["t"]
+            if t[0] != "switch":
+                continue
+            cl = operand_local(t[1])
+            d = body.single_def(cl) if cl is not None else None
+            if not d or d[2] != "A" or d[3][2][0] != "bin" or d[3][2][1] != "Lt" or const_int(d[3][2][3]) != n:
+                continue
+            c = operand_local(d[3][2][2])
+            for _ in range(6):
+                dd = body.single_def(c) if c is not None else None
+                if dd and dd[2] == "A" and dd[3][2][0] == "use" and dd[3][2][1][0] in ("cp", "mv"):
+                    c = operand_local(dd[3][2][1])
+                else:
+                    break
+            if c is None:
+                continue
+            defs = body.defs().get(c, [])
+            init = [x for x in defs if x[0] not in blocks]
+            step = [x for x in defs if x[0] in blocks]
+            if len(init) == 1 and init[0][2] == "A" and init[0][3][2][0] == "use" and const_int(init[0][3][2][1]) == 0 and step:
+                ok = True
+                for x in step:
+                    rv = x[3][2] if x[2] == "A" else None
+                    if rv is None:
+                        ok = False
+                    elif rv[0] == "use":
+                        sd = body.single_def(operand_local(rv[1])) if operand_local(rv[1]) is not None else None
+                        rv = sd[3][2] if sd and sd[2] == "A" else None
+                    if not (rv and rv[0] == "bin" and rv[1] in ("Add", "AddUnchecked") and const_int(rv[3]) == 1):
+                        ok = False
+                if ok:
+                    return True
     return False
 
 
@@ -323,12 +377,12 @@ def check_base(facts, meng, fn, kind):
     """K3 for a primitive that manipulates limbs directly.  Returns (ok, reason)."""
     pe = PrimEval(facts, meng, fn).run()
     if pe.ctl is None:
-        return False, "no parameter named ctl"
+        return False, "undecided: no control-word parameter identified"
     if pe.stored_before_load:
-        return False, "a limb is re-read after being written (undecided idiom)"
+        return False, "undecided: a limb is re-read after being written"
     stores = pe.final
     if not stores:
-        return False, "no store to any limb found"
+        return False, "undecided: no store to any limb found"
     self_root = 1
     other_root = 2
     n, _elt = elem_count(facts, fn, self_root)
@@ -339,7 +393,7 @@ def check_base(facts, meng, fn, kind):
     seen = {r: set() for r in roots}
     for (root, path), tbl in stores.items():
         if root not in roots:
-            return False, "store to unexpected object _%d%s" % (root, path)
+            return False, "undecided: store through a pointer that is not one of the operands (_%d%s), e.g. an iterator" % (root, path)
         if tbl is None:
             return False, "value stored to _%d%s is not a bitwise function of the operands and the selector (undecided idiom / selector not a full-width mask)" % (root, path)
         other = other_root if root == self_root else self_root
@@ -442,12 +496,9 @@ def struct_field_count(facts, fn, root):
 def check_delegating(facts, meng, fn, kind, verified):
     """set_cond on a composite: one verified set_cond per field, same field on both sides, own ctl."""
     body = meng.body(fn)
-    ctl = None
-    for i in range(1, fn["argc"] + 1):
-        if fn["locals"][i][1] == "ctl":
-            ctl = i
+    ctl = ctl_index(facts, fn)
     if ctl is None:
-        return False, "no parameter named ctl"
+        return False, "undecided: no control-word parameter identified"
     nf, td = struct_field_count(facts, fn, 1)
     if nf is None:
         return False, "receiver is not a struct"
@@ -514,8 +565,8 @@ def check_select(facts, meng, fn, verified):
                 return False, "result is not initialised from a0"
             if a1 is None or a1[0] != 2:
                 return False, "set_cond source is not a1"
-            ctl = [i for i in range(1, fn["argc"] + 1) if fn["locals"][i][1] == "ctl"]
-            if not ctl or not ctl_arg_ok(body, fn, t[2][2], ctl[0]):
+            ctl = [ctl_index(facts, fn)]
+            if ctl[0] is None or not ctl_arg_ok(body, fn, t[2][2], ctl[0]):
                 return False, "control word is not this function's ctl"
             if blocked:
                 return None, "blocked by unverified %s" % blocked
@@ -558,7 +609,7 @@ def check_select_localcopy(facts, pe, fn, n):
     if not stores or any(k[0] != r for k in pe.final):
         return None
     if pe.stored_before_load:
-        return False, "a limb is re-read after being written (undecided idiom)"
+        return False, "undecided: a limb is re-read after being written"
     s_ = pe.sel()
     idx = set()
     sym = False
@@ -590,7 +641,7 @@ def check_select_inline(facts, meng, fn):
     """select written directly on limbs: the returned aggregate's i-th limb is MUX(ctl, a0[i], a1[i])."""
     pe = PrimEval(facts, meng, fn).run()
     if pe.ctl is None:
-        return False, "no parameter named ctl"
+        return False, "undecided: no control-word parameter identified"
     limbs = _flatten(pe.env.get(0))
     n, _e = elem_count(facts, fn, 1)
     if (limbs is None or len(limbs) != n) and n is not None:
@@ -651,7 +702,7 @@ def run_muxshape(facts, run, prop="C20"):
         if fn["kind"] == "Closure":
             continue
         it = fn["item"]
-        if it in FAMILY and "ctl" in [fn["locals"][i][1] for i in range(1, fn["argc"] + 1)]:
+        if it in FAMILY and ctl_index(facts, fn) is not None:
             fam.setdefault(it, []).append(fn)
     verified = {}
     cascade = []
@@ -659,6 +710,10 @@ def run_muxshape(facts, run, prop="C20"):
 
     def report(fn, kind, ok, why):
         nonlocal n_ok
+        if ok is False and why.startswith("undecided:"):
+            # an idiom the symbolic evaluation does not model (iterators, re-read limbs): not decided, hence not reported;
+            # K1 (control words are masks), K5 (every limb written) and the sibling rules still apply to the function
+            ok = None
         run.oblige(ok=bool(ok))
         if ok is None:
             cascade.append("%s: %s" % (fn["name"], why))
@@ -724,7 +779,7 @@ def run_muxshape(facts, run, prop="C20"):
         fields = set()
         bad = None
         blocked_neg = None
-        ctl = [i for i in range(1, fn["argc"] + 1) if fn["locals"][i][1] == "ctl"][0]
+        ctl = ctl_index(facts, fn)
         for t in [b["t"] for b in fn["blocks"] if b["t"][0] == "call"]:
             cn = norm_name(t[1]["f"])
             if cn.endswith("::set_cond"):
